@@ -59,8 +59,8 @@ example : BP.parse [BP.Tok.sym 1, .or, .lpar, .sym 2, .and, .sym 3, .rpar, .and,
 
 /-- **C02 (text)**: for every syntactically valid expression — a skeleton `ts` derivable from the grammar —
     written as a text (`SegsFor`: operators and parentheses in any letter case, every license as any
-    stored name of it in any case and spacing, a pair as license, `with`, exception; whitespace
-    arbitrary), over a table whose multi-word names contain no operator word or parenthesis, parsing
+    stored name of it in any case and spacing, an unknown license as words that occur in no stored
+    name, a pair as license, `with`, exception; whitespace arbitrary), over a table whose multi-word names contain no operator word or parenthesis, parsing
     returns the tree the grammar and precedence fix. -/
 theorem C02_text (c : Cls) (hc : ClsOK c) (T : Table) (hop : OpWordFree c T) (hkw : KwOwned c T)
     (ts : List (BP.Tok Atom)) (gs : List (List (Expr Atom))) (hd : BP.OrP ts gs)
